@@ -21,7 +21,8 @@ def gen(rng, checks):
         yield {'routes': routes, 'slash_mode': rng.choice(['redirect', 'redirect', 'rewrite', 'strict']),
                'handler': rng.choice(['default', 'default', 'debug', 'reraise', 'broken_render']),
                'request': {'path': rng.choice(PATHS), 'method': rng.choice(METHODS), 'query_latin1': rng.choice(QUERIES),
-                           'accept': rng.choice([None, None, 'text/html', 'application/json', 'application/xml', '*/*'])},
+                           'accept': rng.choice([None, None, 'text/html', 'application/json', 'application/xml', '*/*']),
+                           'script_name': rng.choice([None, None, '/svc'])},
                'check': checks}
 
 
